@@ -643,6 +643,28 @@ func (p *C15) Check(sc *scen.Scenario, run *orch.Run, env *orch.Env) []orch.Viol
 					how = "derived slog.Logger"
 				}
 				checkRecord(how, sev, c15Want(run, op.Lvl), c15Msg(op), h, op.Args, nil)
+				// the record's own time: log/slog stamped it with the clock (the simulated one, see the world's
+				// simTimed), so what is printed must be one of the clock reads of this call
+				if len(o.Writes) == 1 && len(o.Clocks) > 0 {
+					if tt, ok := timeText(o.Writes[0].P); ok {
+						match := false
+						var first string
+						for _, c := range o.Clocks {
+							var sec int64
+							if _, err := fmt.Sscanf(c.S, "%d", &sec); err != nil {
+								continue
+							}
+							f := time.Unix(sec, int64(c.N)).In(c16Zone(sc.World.Clock.Zone)).Format(time.RFC3339Nano)
+							if first == "" {
+								first = f
+							}
+							match = match || f == tt
+						}
+						if !match && first != "" {
+							add("C15.time", how, "%s record prints time %q, the record was stamped at %s", how, tt, first)
+						}
+					}
+				}
 			}
 		case "bridge_print":
 			S := op.Lvl
